@@ -124,9 +124,7 @@ func httpMapping(r *mon.Run) {
 					}
 				}
 				if out2 != nil {
-					// net/http drains an unfinished request body before it answers, so the refused
-					// client's body is ended first; ConnectOut's own prompt return is judged in gate mode
-					out2.End()
+					// the refused client keeps its request body open; it must still be answered at once
 					out2.C.SetReadDeadline(time.Now().Add(hk.Bound))
 					if _, err := hk.ReadResponse(out2.C.R, []byte("POST ")); err != nil {
 						viol("refused-attempt-not-ended", fmt.Sprintf("refused /o request got no response: %v", err))
